@@ -32,7 +32,12 @@ RULE = ("part 'faults': ProgGen programs (no failing serializers) run single-thr
         "(no position consumed and never emitted); "
         "part 'late': add_success_fields / addSuccessFields called after the action (succeeded or failed, action or task, with block or finish()) has finished - one indent too "
         "few, finish() then a late call, a callback firing in the parent, inside a sibling, after the parent ended or at the very end - below 0-3 open ancestors that go on logging: "
-        "placement rules hold, every end message stays at its action's last position and nothing is emitted below a finished action (whether the late fields are dropped is not judged)")
+        "placement rules hold, every end message stays at its action's last position and nothing is emitted below a finished action (whether the late fields are dropped is not judged); "
+        "part 'signals': a Python signal handler that itself logs (a message, a typed message, an action with a message inside, or serialize_task_id + message) is delivered in the main "
+        "thread at EVERY point inside the program's logging calls at which CPython can run a handler - after each call instruction and at each function entry inside eliot/_action.py, "
+        "_output.py, _message.py, _traceback.py, _errors.py (sys.monitoring INSTRUCTION/PY_START events; signal.raise_signal from the callback), one forked process per point, complete "
+        "per program and handler kind: well-formed, unique (task_uuid, task_level), positions exactly 1..n with start at 1 and end at n (serialized ids included), every call that "
+        "returned has its message on the tape once, no call raises (emission order is not judged in this part)")
 ASSUMPTIONS = ["programs are well-formed: no logging into finished actions, each serialized id continued once",
                "emission order is compared with position order on first use (allocation), since a remote child's messages "
                "are legitimately emitted after the reservation"]
@@ -51,6 +56,7 @@ def plan(tier, seed):
     w = 960 if tier == "quick" else 9600
     specs += [{"part": part, "seed": seed, "lo": i, "hi": min(w, i + 96)} for part in ("chain", "late") for i in range(0, w, 96)]
     specs += [{"part": "ordered", "seed": seed, "i": i} for i in range(8 if tier == "quick" else 40)]  # (one fresh process each: start-up buffer)
+    specs += [{"part": "signals", "seed": seed, "i": i} for i in range(16 if tier == "quick" else 160)]
     return specs
 
 
@@ -816,8 +822,61 @@ def part_ordered(spec, res):
         res["violations"].append({"msg": problems[0], "mech": mech, "detail": {"part": "ordered", "kind": kind, "levels": [list(l) for l in levels]}})
 
 
+def part_signals(spec, res):
+    """A signal handler that logs, delivered at EVERY point inside the program's logging calls at which CPython can run a handler
+    (after each call instruction and at each function entry inside the eliot modules; vf/sigreent.py): one forked process per point."""
+    from vf import sigreent
+    from vf.forkrun import call_in_fork
+    i = spec["i"]
+    rng = random.Random("%s:C02:sig:%d" % (spec["seed"], i // 4))
+    prog = sigreent.gen_program(rng)
+    hk = ["msg", "action", "serialize", "typed"][i % 4]
+    c = res["counters"]
+    res.setdefault("sets", {}).setdefault("signal_points", [])
+    kind, base = call_in_fork(lambda: sigreent.run_once(prog, 0, hk), timeout=120)
+    if kind != "ok" or base.get("skip"):
+        res["inconclusive"] = "signals: baseline run %s %s" % (kind, str(base)[-200:])
+        return
+    problems = []
+    sigreent.judge(base, problems)
+    if problems:
+        res["violations"].append({"msg": "(no signal delivered) " + problems[0], "mech": None, "detail": {"part": "signals", "program": prog, "problems": problems[:5]}})
+        return
+    for k in range(1, base["points"] + 1):
+        kind, d = call_in_fork(lambda: sigreent.run_once(prog, k, hk), timeout=120)
+        res["evals"] += 1
+        if kind in ("timeout", "died"):
+            res["inconclusive"] = "signals: child %s at point %d" % (kind, k)
+            return
+        problems = []
+        if kind != "ok":
+            problems.append("run failed: %s" % str(d)[-400:])
+        else:
+            if d["handler_runs"] != 1:
+                c["signal_runs_without_handler"] = c.get("signal_runs_without_handler", 0) + 1
+                continue
+            c["signal_handlers_run_inside_a_logging_call"] = c.get("signal_handlers_run_inside_a_logging_call", 0) + 1
+            if d["handler_context"] == "action":
+                c["signal_handlers_run_with_a_current_action"] = c.get("signal_handlers_run_with_a_current_action", 0) + 1
+            res["sets"]["signal_points"].append(d["fired"])
+            res["nontrivial"].append(h([prog, hk, k]))
+            sigreent.judge(d, problems)
+        if problems and len(res["violations"]) < 3:
+            where = d["fired"] if kind == "ok" else "?"
+            res["violations"].append({"msg": "a signal handler that logs (%s) ran at %s, in the middle of a logging call of the main program: %s" % (hk, where, problems[0]),
+                                      "mech": None, "detail": {"part": "signals", "program": prog, "handler": hk, "point": k, "landed_at": where, "problems": problems[:5],
+                                                               "tape": [{kk: m.get(kk) for kk in ("task_level", "message_type", "action_type", "action_status", "nid") if kk in m} for m in (d.get("tape", []) if kind == "ok" else [])][:30]}})
+        elif problems:
+            c["further_violating_signal_points"] = c.get("further_violating_signal_points", 0) + 1
+    if i % 8 == 0:
+        res["sample"] = {"part": "signals", "program": prog, "handler": hk, "points": base["points"]}
+
+
 def run_case(spec):
     res = {"evals": 0, "nontrivial": [], "counters": {}, "violations": [], "sample": None}
+    if spec["part"] == "signals":
+        part_signals(spec, res)
+        return res
     if spec["part"] == "extractors":
         one_extractors(spec, res)
         return res
@@ -852,4 +911,6 @@ def finalize(agg, tier):
         return "no chain of destinations that log while handling a message got five or more messages deep inside an action"
     if not c.get("late_success_fields_calls_with_open_ancestor", 0):
         return "add_success_fields was never called on a finished action while an ancestor was still open"
+    if c.get("signal_handlers_run_with_a_current_action", 0) < 500 or len(agg["sets"].get("signal_points", {})) < 40:
+        return "fewer than 500 signal handlers ran inside a logging call with a current action, or fewer than 40 distinct delivery points"
     return None
